@@ -748,3 +748,8 @@ func DumpMain(args []string) int {
 	}
 	return 1
 }
+
+// BaseYAML is the valid base file with its queue directories under root
+func BaseYAML(root string) string {
+	return strings.ReplaceAll(strings.Replace(render("", ""), "@RANDOM@", "", 1), "ROOT", root)
+}
